@@ -185,6 +185,11 @@ def report_rt(ctx, res, record=True):
             "a program printed in style %s does not parse back to its tree (minimised: %s)" % (f["style"], f["key"].split(":", 2)[2]),
             case={"source": f["source"], "original_source": f.get("original_source")},
             expected=f["expected"], observed=f["observed"])
+    if stats.get("rt_mismatch_not_minimised", 0) > 0:
+        nviol += 1
+        ctx.violation("roundtrip:unclassified-failures",
+                      "%d further round trip failures were not minimised (shrink budget exhausted)" % stats["rt_mismatch_not_minimised"],
+                      case={"count": stats["rt_mismatch_not_minimised"]}, expected="0", observed=str(stats["rt_mismatch_not_minimised"]))
     if diffs and not fails:
         # harness did not shrink (should not happen): report the raw case
         i, e, o = diffs[0]
